@@ -640,6 +640,14 @@ func builtinMacroExpand(env *LEnv, args *LVal) *LVal {
 		if !ok {
 			return form
 		}
+		if depth+1 > maxDepth {
+			// Count the expansion just made against the bound, as the
+			// evaluator does, whatever it produced: the check at the top of
+			// the loop only ever sees a list result, so a chain ending in an
+			// atom was allowed one expansion more than evaluating the same
+			// call allows.
+			return env.Errorf("macro expansion depth exceeded (%d expansions)", depth+1)
+		}
 		if r.Type != LSExpr {
 			return r
 		}
